@@ -28,17 +28,37 @@ func (h inviteHandler) HandleMessage(msg stanza.Message, t xmlstream.TokenReadEn
 	if err != nil {
 		return err
 	}
-	var x Invitation
-	err = d.Decode(&x)
-	if err != nil {
-		return err
-	}
-
-	if h.F != nil {
-		h.F(x)
+	// The invitation is the payload that this handler was registered for,
+	// wherever it is among the children of the message (a mediated invitation
+	// often carries the direct form as well, after the muc#user payload).
+	for {
+		tok, err := d.Token()
+		if err != nil {
+			return err
+		}
+		start, ok := tok.(xml.StartElement)
+		if !ok {
+			if _, end := tok.(xml.EndElement); end {
+				// The end of the message.
+				return nil
+			}
+			continue
+		}
+		if start.Name != directName {
+			if err = d.Skip(); err != nil {
+				return err
+			}
+			continue
+		}
+		var x Invitation
+		if err = d.DecodeElement(&x, &start); err != nil {
+			return err
+		}
+		if h.F != nil {
+			h.F(x)
+		}
 		return nil
 	}
-	return nil
 }
 
 // HandleInvite returns an option that registers a handler for direct MUC
